@@ -29,7 +29,13 @@ def run(report, db, tier):
     cg = CallGraph(db)
     M = ConnModel(db, cg)
     S = pathsum.PathSum(db, cg, inline_pred=pathsum.known_unit_pred())
-    r1(report, db, cg, M, S)
+    # the activity check may live in _start_network_thread or in the
+    # _check_connection it shares with connect()/status(): R16.1 reads the
+    # paths with that helper's decisions included
+    chk = db.own_method(M.conn, '_check_connection')
+    S1 = pathsum.PathSum(db, cg, inline=[chk] if chk is not None else [],
+                         inline_pred=pathsum.known_unit_pred())
+    r1(report, db, cg, M, S1)
     r2(report, db, cg, M, S)
     r3(report, db, cg, M)
     r4(report, db, cg, M, S)
@@ -121,7 +127,7 @@ def r1(report, db, cg, M, S):
                                         and cs.node.func.attr == '__init__')
              and '%s:%s' % (cs.caller.module.name, cs.caller.qualname)
              not in inlined]
-    report.floor('NetworkingThread construction sites', len(sites), 2)
+    report.floor('NetworkingThread construction sites', len(sites), 1)
     for cs in sites:
         if cs.caller is not snt:
             report.violation(R, 'thread-ctor:%s' % cs.caller.qualname,
@@ -149,7 +155,7 @@ def r1(report, db, cg, M, S):
                                      'outside _start_network_thread')
                 else:
                     report.ok(R)
-    report.floor('thread start sites', n, 2)
+    nsites = n
     me = sy(snt.params[0])
     started = refused = 0
     for p in S.run(snt):
@@ -201,6 +207,10 @@ def r1(report, db, cg, M, S):
     if not started:
         raise AnalysisError('_start_network_thread: no path starts a '
                             'thread', snt.node, rel(snt.path))
+    # start() call sites typed by the whole-program inference, or (when the
+    # receiver is reached through a computed attribute name) the starts seen
+    # on the paths of _start_network_thread
+    report.floor('thread start sites', max(nsites, started), 1)
 
 
 # ---------------------------------------------------------------------------
@@ -635,22 +645,81 @@ def r6(report, db, cg, M, S):
                     'disconnect() sets the flag of the newest thread slot '
                     'on every exit')
     rn = M.method(M.thread, '_run')
-    me = rn.params[0]
-    loops = [n for n in ast.walk(rn.node) if isinstance(n, ast.While)]
-    report.floor('loops in NetworkingThread._run', len(loops), 3)
-    atom = '%s.interrupt' % me
-    for lp in loops:
-        ats = boolfn.atoms(lp.test)
-        stops = atom in ats and boolfn.conj_satisfiable(
-            [(lp.test, True)], {atom: True}) is None
-        if stops:
-            report.ok(R, 'loop at line %d: %s' % (lp.lineno,
-                                                  ast.unparse(lp.test)))
-        else:
-            report.violation(R, 'loop-ignores-interrupt:%s' % ast.unparse(
-                lp.test)[:40], rn.path, lp, rn.qualname,
-                'the loop `while %s` keeps running after interrupt is set'
-                % ast.unparse(lp.test))
+    # _run and the helpers of the thread class it was split into (functions
+    # that are not units of the confirmed tree)
+    unknown = pathsum.known_unit_pred()
+    scope, todo = [], [rn]
+    while todo:
+        f = todo.pop()
+        if f in scope:
+            continue
+        scope.append(f)
+        for cs in cg.sites.get(f, []):
+            for m, _, _ in cs.callees:
+                if m.cls is M.thread and unknown(m) and m not in scope:
+                    todo.append(m)
+
+    def unbounded_or_counted(lp):
+        """while loops, and for loops that count attempts (range) or poll a
+        callable (iter(f, sentinel)); a for loop over a collection ends with
+        its data"""
+        if isinstance(lp, ast.While):
+            return True
+        it = lp.iter
+        return isinstance(it, ast.Call) and isinstance(it.func, ast.Name) \
+            and (it.func.id == 'range' or (it.func.id == 'iter'
+                                           and len(it.args) == 2))
+
+    def leaves(block):
+        return bool(block) and isinstance(block[-1], (ast.Break, ast.Return,
+                                                      ast.Raise))
+
+    def guarded(stmts, atom):
+        """some statement of the iteration is `if c: ...leave` with c true
+        whenever the interrupt flag is set"""
+        for st in stmts:
+            if isinstance(st, ast.If) and leaves(st.body) and \
+                    atom in boolfn.atoms(st.test) and \
+                    boolfn.conj_satisfiable([(st.test, False)],
+                                            {atom: True}) is None:
+                return True
+            if isinstance(st, ast.If) and leaves(st.orelse) and \
+                    atom in boolfn.atoms(st.test) and \
+                    boolfn.conj_satisfiable([(st.test, True)],
+                                            {atom: True}) is None:
+                return True
+            if isinstance(st, (ast.With, ast.Try)) and guarded(st.body,
+                                                               atom):
+                return True
+        return False
+    nloops = 0
+    for f in scope:
+        if not f.params:
+            continue
+        atom = '%s.interrupt' % f.params[0]
+        for lp in [n for n in ast.walk(f.node)
+                   if isinstance(n, (ast.While, ast.For))]:
+            if not unbounded_or_counted(lp):
+                continue
+            nloops += 1
+            stops = False
+            if isinstance(lp, ast.While):
+                ats = boolfn.atoms(lp.test)
+                stops = atom in ats and boolfn.conj_satisfiable(
+                    [(lp.test, True)], {atom: True}) is None
+            stops = stops or guarded(lp.body, atom)
+            head = ast.unparse(lp.test) if isinstance(lp, ast.While) \
+                else 'for %s in %s' % (ast.unparse(lp.target),
+                                       ast.unparse(lp.iter))
+            if stops:
+                report.ok(R, '%s, loop at line %d: %s' % (
+                    f.qualname, lp.lineno, head))
+            else:
+                report.violation(R, 'loop-ignores-interrupt:%s' % head[:40],
+                                 f.path, lp, f.qualname, 'the loop `%s` '
+                                 'keeps running after interrupt is set'
+                                 % head)
+    report.floor('polling loops of the networking thread', nloops, 2)
     dc = M.conn_method('disconnect')
     d = sy(dc.params[0])
     nt, nnt = at(d, 'networking_thread'), at(d, 'new_networking_thread')
